@@ -28,6 +28,19 @@ pub fn write_script(k: usize) -> Vec<OutCall> {
     }
 }
 
+/// Application writes of the C03 sessions: the shared scripts plus the list/title helpers of `Writer` with every kind of
+/// `longest_name` (smaller than the name, equal, larger, much larger)
+pub fn write_script_c03(k: usize) -> Vec<OutCall> {
+    match k % 16 {
+        8 => vec![OutCall::ListElement("uart".into(), "ready".into(), 40)],
+        9 => vec![OutCall::ListElement("a-rather-long-name".into(), "d".into(), 3), OutCall::ListElement("é".into(), "".into(), 2)],
+        10 => vec![OutCall::Title("Commands:".into()), OutCall::ListElement("x".into(), "y\nz".into(), 1), OutCall::ListElement("".into(), "".into(), 0)],
+        11 => vec![OutCall::ListElement("n".into(), "far".into(), 200), OutCall::ListElement("n".into(), "edge".into(), 33), OutCall::ListElement("n".into(), "edge".into(), 34)],
+        12 => vec![OutCall::UwriteChar('é'), OutCall::FmtChar('\n'), OutCall::Title("".into())],
+        k => write_script(k),
+    }
+}
+
 pub fn handler_scripts(k: usize) -> Vec<Vec<OutCall>> {
     match k % 4 {
         0 => vec![],
@@ -204,7 +217,7 @@ pub fn run_ops<S: CmdSet>(cfg: &Config, ops: &[FuzzOp]) -> Result<Reach, String>
         let (pre_len, pre_cursor) = s.cli.verif_editor().map(|e| (e.0.len(), e.1)).unwrap_or((0, 0));
         let r = match op {
             FuzzOp::Byte(b) => s.byte(*b),
-            FuzzOp::Write(k) => s.write(&write_script(*k)),
+            FuzzOp::Write(k) => s.write(&write_script_c03(*k)),
             FuzzOp::SetPrompt(k) => s.set_prompt(*k),
         };
         if let Err(e) = r {
